@@ -131,6 +131,11 @@ func plan(tier string, seed int64) []driver.Case {
 				sc := scriptsFor(s, 4)
 				t = append(t, sc[rng.Intn(len(sc))])
 			}
+			if strings.HasSuffix(e.Name, "(marked)") {
+				// the markers are no source values: an unexplained concurrent trace could not be attributed to an
+				// anomaly class; the concurrent feeding of that operator is the unmarked entry's business
+				continue
+			}
 			cases = append(cases, driver.Case{ID: fmt.Sprintf("conc/%s/%d", e.Name, i), Race: tier == "thorough" && i%2 == 0,
 				P: map[string]string{"kind": "conc", "entry": e.Name, "scripts": key(t), "yield": fmt.Sprint(rng.Intn(3)), "concurrent": "1"}})
 		}
